@@ -24,7 +24,8 @@ def scene_case(spec):
     radi = S.build(cfg)
     A = S.draw_inside(rng, cfg["dims"])
     B = S.draw_inside(rng, cfg["dims"])
-    c, dt, dur = P.draw_timing(rng, cfg, K, "long", radi, A, [B])
+    tmode = "coarse" if spec["idx"] % 3 == 1 else "long"
+    c, dt, dur = P.draw_timing(rng, cfg, K, tmode, radi, A, [B])
     # the same timing must be free of rounding edges for the reverse direction as well
     cen = radi.patches_center
     alld = np.concatenate([np.linalg.norm(cen - A, axis=1), np.linalg.norm(cen - B, axis=1)])
@@ -36,6 +37,7 @@ def scene_case(spec):
                c=c, dt=dt, dur=dur, K=K, nt=cfg["nt"], seed=spec["seed"], idx=spec["idx"])
     out["sample"] = tag
     out["dist"]["order_%d" % K] = 1
+    out["dist"]["timing_" + tmode] = 1
     out["dist"]["bands_%d" % nb] = 1
     if len(set(np.round(cfg["alpha"][:, 0], 6))) > 1:
         out["dist"]["nonuniform_walls"] = 1
